@@ -372,7 +372,7 @@ def expr_texts(depth):
 
 def run_c18(rep, tier):
     from pyModelChecking.BDD import OBDD, BDDNode
-    rep.assumptions += ['solver part: parse_binary_expr on every syntax tree of depth <=2 over & | and or ~ not and leaves a b c 0 1 True False (operator skeleton forked: 512 forks; the 4 leaves merged: 4,096 trees per fork)',
+    rep.assumptions += ['solver part: parse_binary_expr on every syntax tree of depth <=2 over & | and or ~ not and leaves a b c 0 1 True False (operator skeleton forked: 512 forks; the 4 leaves merged: 4,096 trees per fork); keyword chains of 3..6 operands under ONE and/or node (7 in thorough), every operand an arbitrary leaf',
                         'exploration part (natively, one input per run): lambda vs expression notation over enumerated texts and argument orders; str round trip for EVERY function of 3 variables under all 6 orderings (4 variables in thorough); error clauses',
                         '/repo at fix commits 0348f4e, 6cbd413, df24c68']
     rep.cov['trusted_base'] = TRUSTED
@@ -410,6 +410,33 @@ def run_c18(rep, tier):
         absorb(rep, t, st, res, secs, key, rp, 'parse_binary_expr on all trees with this operator skeleton (4,096 leaf combinations): denotes the expression, well-formed, no exception')
         if st == 'ok' and res['verdict'] == 'unsat':
             done += 4096
+    # keyword chains `x1 and ... and xk`: ONE BoolOp node with k operands (k = 3..6; 7 in thorough, last operand forked)
+    ctasks = [(k, op, order) for k in (3, 4, 5, 6) for op in ('and', 'or') for order in (['a', 'b', 'c'],)] + [(5, 'and', ['c', 'a', 'b']), (5, 'or', ['c', 'a', 'b'])]
+    if tier == 'thorough':
+        for code in range(8):
+            ctasks += [(7, op, ['a', 'b', 'c'], {'h6_%d' % i: bool((code >> i) & 1) for i in range(3)}) for op in ('and', 'or')]
+
+    def rpc(res):
+        e = res.get('text')
+        body = ('from pyModelChecking.BDD import OBDD\nimport itertools\ne = %r; order = %r\nbad = []\ntry:\n    o = OBDD(e, order)\nexcept Exception as ex:\n    o = None; bad.append("raised %%s" %% type(ex).__name__)\n'
+                'for bits in itertools.product([0, 1], repeat=3):\n    if o is None: break\n    asg = dict(zip("abc", bits)); nd = o.root\n    while hasattr(nd, "var"): nd = nd.high if asg[nd.var] else nd.low\n'
+                '    want = bool(eval(e, {}, {k: bool(v) for k, v in asg.items()}))\n'
+                '    if bool(nd.value) != want: bad.append((asg, bool(nd.value), want))\nprint(e, order, o)\nif bad:\n    print("VIOLATION of C18:", bad[:3]); sys.exit(1)\nprint("no violation on this input")\n'
+                % (e, res['order']))
+        if e is None or ' d' in (' ' + e):
+            return None, 'no replay for this witness (%r)' % (e,)
+        path = write_replay('C18', body)
+        ok, out = run_replay(path)
+        return (path if ok else None), out
+    for t, st, res, secs in pmap(bdd.chain_task, ctasks):
+        key = 'parser chain of %d operands under one `%s` order=%s%s' % (t[0], t[1], ''.join(t[2]), (' last=%s' % ''.join('1' if v else '0' for v in t[3].values())) if len(t) > 3 else '')
+        if st == 'ok':
+            for f_ in ('solver_s', 'gates', 'queries', 'encode_s'):
+                res.setdefault(f_, 0)
+        absorb(rep, t, st, res, secs, key, rpc, 'parse_binary_expr on one BoolOp with %d operands, all 8^%d leaf combinations: denotes the %s of the leaves; RuntimeError iff a leaf is outside the ordering' % (t[0], t[0], 'conjunction' if t[1] == 'and' else 'disjunction'))
+        if st == 'ok' and res['verdict'] == 'unsat':
+            done += 8 ** t[0] // (8 if len(t) > 3 else 1)
+    rep.cov['bounds'].update(keyword_chain_operands='3..6' + (' and 7' if tier == 'thorough' else ''))
     rep.cov['states'] = done
     rep.cov['transitions'] = done
     rep.cov['states_meaning'] = 'syntax trees covered by unsat verdicts'
